@@ -44,10 +44,13 @@ TABLE = {
     # the second argument of the `min(_todo, …)` call, read from the AST of the method (fails, = broken tie, when the
     # loop is no longer there)
     ("READ_CHUNK", "nat",
-     "(lambda ast, inspect, textwrap: [eval(compile(ast.Expression(c.args[1]), 'chunk', 'eval')) "
-     "for c in ast.walk(ast.parse(textwrap.dedent(inspect.getsource(Pcap.next)))) "
-     "if isinstance(c, ast.Call) and getattr(c.func, 'id', None) == 'min' and len(c.args) == 2 "
-     "and getattr(c.args[0], 'id', None) == '_todo'][0])"
+     # anywhere in class Pcap (so that extracting the loop into a helper or renaming its locals keeps the tie): the
+     # constant second argument of a `min(<remaining>, <constant>)` that is the argument of a `.read(...)` call
+     "(lambda ast, inspect, textwrap: [eval(compile(ast.Expression(c.args[0].args[1]), 'chunk', 'eval'), {}) "
+     "for c in ast.walk(ast.parse(textwrap.dedent(inspect.getsource(Pcap)))) "
+     "if isinstance(c, ast.Call) and getattr(c.func, 'attr', None) == 'read' and len(c.args) == 1 "
+     "and isinstance(c.args[0], ast.Call) and getattr(c.args[0].func, 'id', None) == 'min' and len(c.args[0].args) == 2 "
+     "and not any(isinstance(n, ast.Name) for n in ast.walk(c.args[0].args[1]))][0])"
      "(__import__('ast'), __import__('inspect'), __import__('textwrap'))"),
   ]),
 }
